@@ -5,7 +5,9 @@
 //! * `h-c06 --probe`: prints a few exploratory runs (development aid).
 //! * `h-c06 --tier T --seed S --out DIR`: correspondence + oracle run (see `run.rs`).
 mod circ;
+mod coordsbind;
 mod gates;
+mod loworder;
 mod run;
 
 fn main() {
